@@ -37,7 +37,7 @@ typedef struct ls_inputs { int kind; int n; const uint64_t *vecs; /* explicit: n
 typedef struct ls_ev { int import; int nargs; uint64_t args[10]; int inst_ok; } ls_ev;
 typedef struct ls_trace { int n; int overflow; ls_ev ev[LS_TRMAX]; } ls_trace;
 static ls_trace ls_tr_ref, ls_tr_impl;
-static mInstance ls_inst; static mInstance *ls_cur_inst = &ls_inst;
+static mInstance ls_inst; static mInstance *ls_cur_inst = &ls_inst; static int ls_in_newchild;
 static wr_module *ls_mod; static wr_instance *ls_ref;
 
 static uint8_t ls_vt(char c) { return c == 'i' ? VT_I32 : c == 'I' ? VT_I64 : c == 'f' ? VT_F32 : VT_F64; }
@@ -57,7 +57,9 @@ static void ls_tr_push(ls_trace *t, int import, const uint64_t *args, int n, int
 }
 /* implementation side: called by the generated definitions of the imported C symbols */
 static uint64_t ls_host_impl(int import, void *inst, const uint64_t *args, const char *ptypes, int np, char rtype) {
-    ls_tr_push(&ls_tr_impl, import, args, np, inst == (void *)ls_cur_inst);
+    /* while <module>NewChild runs (ls_in_newchild), a start function must hand the CHILD to its imports: the child's address is not known
+       to the harness yet, so "any instance but the one NewChild was called on" is what is checked (ls_cur_inst = that parent) */
+    ls_tr_push(&ls_tr_impl, import, args, np, ls_in_newchild ? inst != (void *)ls_cur_inst : inst == (void *)ls_cur_inst);
     return ls_host_result(import, args, ptypes, np, rtype);
 }
 /* reference side */
@@ -397,7 +399,17 @@ static int ls_main_seq2(int argc, char **argv, const ls_func *funcs, int nfuncs,
                         ls_tr_ref.n = 0; refB = wr_instantiate(ls_mod, &e);
                         ls_cur_inst = &ls_inst; ls_tr_impl.n = 0;
                         /* inst 4: a child of a child (second generation), as a thread spawned by a spawned thread gets */
-                        ls_in_impl = 1; if (setjmp(ls_jb) == 0) { pB = mNewChild(&ls_inst); if (pB && o->inst == 4) pB = mNewChild(pB); } ls_in_impl = 0;
+                        ls_in_impl = 1; ls_in_newchild = 1;
+                        if (setjmp(ls_jb) == 0) {
+                            pB = mNewChild(&ls_inst);
+                            if (pB && o->inst == 4) {
+                                /* the first-generation child ran the start function once: same trace as the reference's instantiation; then the
+                                   second generation runs it again */
+                                int keep = ls_tr_ref.n; ls_compare_init_traces("newchild-B-first-generation"); ls_tr_ref.n = keep;
+                                ls_cur_inst = pB; pB = mNewChild(pB);
+                            }
+                        }
+                        ls_in_impl = 0; ls_in_newchild = 0;
                         if (!pB) { pB = &instB; printf("ERROR NewChild returned NULL\n"); return 2; }
                         ls_cur_inst = pB; ls_ref = refB; ls_compare_init_traces("newchild-B"); haveB = 1; steps++;
                         continue;
